@@ -39,6 +39,29 @@ Progs12_2 == {P \in ProgsC12(2) \cup AggC12(2) : Canon(P)}
 (* the counterexample family only: enough for the run on the mechanism as shipped *)
 Progs12_shipped == {P \in ProgsC12(2) : Canon(P) /\ P.where = <<>>}
 
+(* ---- C12: balance as an operand of an enclosing expression whose other operand is NULL (decides) on some rows:
+   every ledger x row filter x NULL pattern of the other operand x conjuncts x target lists.  The sets hide behind
+   operators with parameters and INIT predicates: they are not built at the startup of the other configurations. *)
+PrgN(ledger, mask, nul, where, targets, subbal) ==
+    [ledger |-> ledger, mask |-> mask, nul |-> nul, where |-> where, targets |-> targets, subbal |-> subbal, agg |-> FALSE]
+TargetsNest == { <<"XB">>, <<"BX">>, <<"XB", "XB">>, <<"B", "XB">>, <<"XB", "BX">>, <<"S", "XB">>, <<"XB", "S", "BX">> }
+TargetsLazy == { <<"XL">>, <<"XL", "XL">>, <<"S", "XL">> }
+WheresNest == { <<>>, <<"M">>, <<"M", "BT">> }
+NestProgs(maxrows, TG) ==
+    UNION { { PrgN(l, m, nu, w, tg, TRUE) :
+                l \in [1..k -> {pU, pH, pR}], m \in [1..k -> BOOLEAN], nu \in [1..k -> BOOLEAN], tg \in TG,
+                w \in WheresNest } : k \in 0..maxrows }
+NestCanon(P) == Has(P.where, "M") \/ P.mask = AllTrue(Len(P.ledger))
+InitOver(S) == \E p \in [Threads -> S] : InitWith(p)
+Init12q == InitOver(Progs12_2 \cup {P \in NestProgs(2, TargetsNest) : NestCanon(P)})
+(* thorough: every target list on ledgers of up to 2 postings, the lists without an IN-subquery on 3 postings *)
+TargetsNest3 == { <<"XB">>, <<"BX">>, <<"XB", "XB">>, <<"B", "XB">>, <<"XB", "BX">> }
+Init12 == InitOver(Progs12_3 \cup {P \in NestProgs(2, TargetsNest) \cup NestProgs(3, TargetsNest3) : NestCanon(P)})
+(* non-vacuity: function calls that stop at the first NULL operand (ArgEval overridden in the cfg) *)
+InitNest2 == InitOver({P \in NestProgs(2, TargetsNest) : NestCanon(P)})
+(* short-circuit operators AS SHIPPED: TLC must reject them (known finding) *)
+InitLazy2 == InitOver({P \in NestProgs(2, TargetsLazy) : NestCanon(P)})
+
 (* ---- C20: per row  NextRow, EvalBalance, Yield, EvalBalance, EmitRow *)
 LA == <<pU, pH, pR>>
 LB == <<pH, pK, pU>>
